@@ -69,3 +69,6 @@ pub fn token_at_offset(f: &CstFile, offset: TextSize) -> (r: TokenAtOffset) requ
 #[verifier::external_body]
 pub fn string_insert_str(s: &mut String, idx: usize, t: &str) requires bboundary(string_bytes(*old(s)), idx as int) { unimplemented!() }
 pub const COMPLETION_PLACEHOLDER: &'static str = "completion_placeholder";
+// `s.as_bytes().get(a..b) == Some(lit)`: never panics (a range out of bounds gives None)
+#[verifier::external_body] pub fn bytes_range_is(s: &str, a: usize, b: usize, lit: &str) -> (r: bool) { unimplemented!() }
+#[verifier::external_body] pub fn str_differs(a: &str, b: &str) -> (r: bool) { unimplemented!() }            // a != b on strs
